@@ -54,6 +54,15 @@ def setup_node(c, sp, case):
         return c.arg("expr", None)
     parts = case.split("|")
     e = c.arg("expr", node_type(parts[0]))
+    base_kind = parts[0].split(":")[0]
+    fixed = {"VectorSum": ("vector", "VectorVariable"), "VectorPowerSum": ("vector", "VectorVariable"),
+             "VectorUnarySum": ("vector", "VectorVariable"), "ElementwisePower": ("vector", "VectorVariable"),
+             "ElementwiseUnary": ("vector", "VectorVariable"), "VectorExpressionSum": ("expression", "VectorExpression")}
+    if base_kind in fixed and len(parts) == 1:
+        f, k = fixed[base_kind]
+        v = sp.S.F(f, sym.Ref)(sp.ref(e))
+        c.assume(sp.K.is_kind(v, k))          # constructor invariant: these nodes are only built over that vector class
+        sp.S.learn_kind(c.ip, v, k)
     if len(parts) > 1:
         r = sp.ref(e)
         fields = ["left", "right"] if parts[0] == "DotProduct" else ["vector"]
